@@ -18,7 +18,9 @@ RULE = ("generated bodies E (C04 grammar with ^/^^ under map/filter/sort_by/pipe
         "define, --set variable, --set macro, select position 1..4, after --split-by} evaluated as paired columns on 1-8 generated inputs; "
         "distinct_nontrivial = distinct (binding form, uses-parent-under-binding, body text) with the value present for at least one input")
 
-FORMS = ("set", "define", "preset-var", "preset-macro", "position", "position-split")
+FORMS = ("set", "define", "preset-var", "preset-macro", "position", "position-split", "pipe-parent", "macro-late-var")
+IDENTITY_LIKE = [".", "(abs .)", "(floor .)", "(default . 0)", "(as_number .)", "(? true . 1)", "(round .)", "(sort .)", "(take . 100)",
+                 "(as_string .)", "(concat . \"\")", "(| . .)", "(parse (stringify .))", "(reverese .)", "(+ . 0)", "(- .)", "(not .)", "(size .)"]
 
 
 def subst_var(ast, name, lit):
@@ -74,11 +76,49 @@ def wrapped(wrap, e):
     return ("call", "map", (("call", "filter", (src, ("lit", True))), e))
 
 
+def sparse_record(rng):
+    r = eg.gen_record(rng)
+    for k in list(r):
+        if rng.random() < 0.6:
+            del r[k]
+    return r
+
+
 def gen_unit(rng):
     form = rng.choice(FORMS)
     g = eg.Gen(rng, ill_typed=0.05, maxdepth=3, allow_parse_selection=False)
-    inputs = [eg.gen_record(rng) for _ in range(rng.choice((1, 2, 4, 8)))]
-    u = {"form": form, "input": "\n".join(jm.dumps(v) for v in inputs).encode(), "pre": [], "pairs": []}
+    if rng.random() < 0.03:
+        # a long run over sparse records: bindings that mostly yield nothing, hundreds of times, before the ones that count
+        # (anything a binding form accumulates per run shows up only here)
+        inputs = [sparse_record(rng) for _ in range(rng.choice((700, 1200, 2000)))] + [eg.gen_record(rng) for _ in range(4)]
+    else:
+        inputs = [eg.gen_record(rng) for _ in range(rng.choice((1, 2, 4, 8)))]
+    u = {"form": form, "input": "\n".join(jm.dumps(v) for v in inputs).encode(), "pre": [], "pairs": [], "long": len(inputs) > 100}
+    if form == "pipe-parent":
+        if rng.random() < 0.4:
+            u["pre"] = ["--split-by=" + rng.choice([".objs", "(push [] .)"])]
+        a = rng.choice([".n", ".i", ".s", ".arr", ".obj", ".b", "(abs .n)", ".strs", ".nas", "(size .arr)", ".", ".z"])
+        k = rng.choice((1, 1, 2, 3))
+        stages = []
+        for _ in range(k):
+            stages.append(rng.choice(IDENTITY_LIKE) if rng.random() < 0.7 else eg.show(g.gen(rng.choice(("num", "str", "any", "arr:num")), eg.Scope(allow_sel=False).push("any"))))
+        u["a"], u["stages"] = a, stages
+        return u
+    if form == "macro-late-var":
+        # a macro whose body reads a variable that is only bound where the macro is used: each use has its own binding
+        vk = rng.choice(("num", "str", "arr:num"))
+        mk = rng.choice(("num", "str", "any", "arr:num", "bool"))
+        M = g.gen(mk, eg.Scope(allow_sel=False).with_var("fv", vk).macro_body())
+        if not any(n[0] == "var" and n[1] == "fv" for n in eg.walk(M)):
+            M = ("call", "push", (("lit", []), ("var", "fv"), M))
+        u["pre"] = ["--set", "@pm=" + eg.show(M)]
+        for _ in range(rng.choice((2, 3))):
+            V = g.lit(vk)
+            u["pairs"].append((eg.show(("call", "set", (("lit", "fv"), V, ("macro", "pm")))),
+                               eg.show(("call", "set", (("lit", "fv"), V, M))), False))
+        if rng.random() < 0.5:
+            u["pre"] = ["--split-by=" + rng.choice([".arr", ".objs"])] + u["pre"]
+        return u
     base = eg.Scope(allow_sel=False)
     if form == "position-split":
         u["pre"] = ["--split-by=" + rng.choice([".arr", ".objs", ".strs", "(push [] .)"])]
@@ -143,8 +183,49 @@ def gen_unit(rng):
     return u
 
 
+def run_pipe_parent(ctx, unit):
+    """(| a b1 .. bk ^{j}) must be the value of (| a b1 .. b(k-j)) for j <= k and the pipe's own input for j = k+1."""
+    st = ctx.stats
+    a, stages = unit["a"], unit["stages"]
+    k = len(stages)
+    args = list(unit["pre"]) + ["--select", ".=x"]
+    for i in range(k + 1):
+        args.append("--select=%s=r%d" % (a if i == 0 else "(| %s %s)" % (a, " ".join(stages[:i])), i))
+    for j in range(1, k + 2):
+        args.append("--select=(| %s %s %s.)=c%d" % (a, " ".join(stages), "^" * j, j))
+    o = ctx.drv.run(core.Case(args, unit["input"]))
+    if o.result != "ok":
+        st.count("skipped_configuration_error" if o.result in ("err", "clierr") else "skipped_" + o.result)
+        return
+    st.count("conclusive")
+    try:
+        rows = [jm.plain(r) for r in jm.read_rows(o.stdout)]
+    except jm.JsonError:
+        st.count("skipped_unreadable_output_is_C02")
+        return
+    for row in rows:
+        full = "r%d" % k in row
+        for j in range(1, k + 2):
+            got = row.get("c%d" % j, "<absent>")
+            want = "<absent>" if not full else row.get("x", "<absent>") if j == k + 1 else row.get("r%d" % (k - j), "<absent>")
+            if jm.dumps(got) != jm.dumps(want):
+                st.violation("pipe-parent:%d-stages" % (k + 1), "in (| %s %s %s.) the %d-th enclosing input is not the value of the corresponding stage" % (
+                    a, " ".join(stages), "^" * j, j), unit, {"args": args, "row": row, "got": got, "want": want})
+                return
+            if got != "<absent>":
+                st.count("present_pairs")
+                st.see("nontrivial", ("pipe-parent", a, tuple(stages), j))
+                if j <= k and jm.dumps(row.get("r%d" % (k - j + 1), 0)) == jm.dumps(row.get("r%d" % (k - j), 1)):
+                    st.count("pipe_stage_returned_its_input")
+    st.count("pairs_checked", (k + 1) * len(rows))
+
+
 def run_unit(ctx, unit):
     st = ctx.stats
+    if unit["form"] == "pipe-parent":
+        return run_pipe_parent(ctx, unit)
+    if unit.get("long"):
+        st.count("long_runs")
     args = list(unit["pre"])
     pairs = unit["pairs"]
     if unit["form"].startswith("position"):
